@@ -89,3 +89,46 @@ impl VxStrExt for str {
     #[verifier::external_body]
     fn vx_eq_ignore_ascii_case(&self, other: &str) -> (r: bool) { self.eq_ignore_ascii_case(other) }
 }
+
+// ---- whitespace / char splitting -----------------------------------------------------------------
+
+/// length of the maximal prefix of s whose chars satisfy p
+pub open spec fn prefix_while(s: Seq<char>, p: spec_fn(char) -> bool) -> int
+    decreases s.len()
+{
+    if s.len() > 0 && p(s[0]) { 1 + prefix_while(s.skip(1), p) } else { 0 }
+}
+
+/// str::split_whitespace: the maximal runs of non-whitespace characters, in order
+pub open spec fn ws_tokens(s: Seq<char>) -> Seq<Seq<char>>
+    decreases s.len()
+{
+    let t = trim_start_spec(s);
+    if t.len() == 0 || t.len() > s.len() { Seq::empty() }
+    else {
+        let n = prefix_while(t, |c: char| !is_unicode_ws(c));
+        if n <= 0 || n > t.len() { Seq::empty() } else { seq![t.take(n)] + ws_tokens(t.skip(n)) }
+    }
+}
+
+/// str::split(c): the pieces between occurrences of c (always at least one piece)
+pub open spec fn split_char(s: Seq<char>, c: char) -> Seq<Seq<char>>
+    decreases s.len()
+{
+    let n = prefix_while(s, |x: char| x != c);
+    if n >= s.len() || n < 0 { seq![s] } else { seq![s.take(n)] + split_char(s.skip(n + 1), c) }
+}
+
+pub open spec fn strings_view(v: Seq<String>) -> Seq<Seq<char>> { v.map_values(|x: String| x@) }
+
+/// R-chain: `s.split_whitespace().map(|x| x.to_string()).collect()`
+#[verifier::external_body]
+pub fn vx_split_ws_strings(s: &str) -> (r: Vec<String>)
+    ensures strings_view(r@) == ws_tokens(s@)
+{ unimplemented!() }
+
+/// R-chain: `s.split(c).map(|x| x.to_string()).collect()`
+#[verifier::external_body]
+pub fn vx_split_char_strings(s: &str, c: char) -> (r: Vec<String>)
+    ensures strings_view(r@) == split_char(s@, c)
+{ unimplemented!() }
